@@ -193,6 +193,77 @@ func (c *Ctx) ruleMapOrder(rule string, m *core.Module, fns map[*ssa.Function]bo
 			c.checkConvertedKeyInsert(rule, m, l, base, pos)
 			c.checkLastWriter(rule, m, l, base, pos)
 		}
+		c.checkMapIterators(rule, m, fn)
+	}
+}
+
+// checkMapIterators: maps.Keys / maps.Values / maps.All hand a map's contents out in iteration order, like a range loop.
+// Each call is an instance: handed straight to slices.Sorted the order is fixed; collected with slices.Collect the
+// result is an accumulation in map order and must be sorted before any other use; any other consumer is not decided.
+func (c *Ctx) checkMapIterators(rule string, m *core.Module, fn *ssa.Function) {
+	n := 0
+	for _, b := range fn.Blocks {
+		for _, in := range b.Instrs {
+			call, ok := in.(*ssa.Call)
+			if !ok {
+				continue
+			}
+			name := core.StaticCalleeName(&call.Call)
+			if name != "maps.Keys" && name != "maps.Values" && name != "maps.All" {
+				continue
+			}
+			n++
+			mapDesc := "<map>"
+			if len(call.Call.Args) > 0 {
+				mapDesc = c.stableIn(m, fn, m.ValPath(call.Call.Args[0]))
+			}
+			k := key(rule, m.Key(fn), sprintf("%s #%d over %s | order fixed before use", name, n, mapDesc))
+			verdict, why := "undecided", "the iterator is consumed by something other than slices.Sorted / slices.Collect"
+			if refs := call.Referrers(); refs != nil && len(*refs) > 0 {
+				verdict = ""
+				for _, r := range *refs {
+					rc, isCall := r.(*ssa.Call)
+					if !isCall {
+						verdict = "undecided"
+						continue
+					}
+					switch core.StaticCalleeName(&rc.Call) {
+					case "slices.Sorted":
+						if verdict == "" {
+							verdict, why = "sorted", "handed to slices.Sorted: the result is in ascending order whatever order the map is walked in"
+						}
+					case "slices.Collect":
+						l := &mapLoop{fn: fn, header: rc.Block(), blocks: map[*ssa.BasicBlock]bool{}, mapVal: call, kind: "iter", pos: call.Pos()}
+						v, w := c.accumulationFlow(m, l, rc)
+						switch v {
+						case "sorted":
+							if verdict == "" {
+								verdict, why = "sorted", w
+							}
+						case "message":
+							if verdict == "" {
+								verdict, why = "message", ""
+							}
+						default:
+							verdict, why = "escapes", w
+						}
+					default:
+						verdict = "undecided"
+					}
+				}
+			}
+			switch verdict {
+			case "sorted":
+				c.R.Ok(rule, k, m.InstrPos(call), "iteration over a map through an iterator", why)
+			case "message":
+				c.R.Add(core.Obligation{Rule: rule, Key: k, Pos: m.InstrPos(call), What: "iteration over a map through an iterator", Status: core.Info,
+					How: "the collected value only flows into a panic or log text"})
+			case "escapes":
+				c.R.Bad(rule, k, m.InstrPos(call), "the contents of a map reach a result in iteration order", why)
+			default:
+				c.R.Bad(rule, k, m.InstrPos(call), "iteration over a map through an iterator whose consumer is not decided", why+" (undecided = fail)")
+			}
+		}
 	}
 }
 
@@ -484,8 +555,39 @@ func (c *Ctx) checkLoopAccumulation(rule string, m *core.Module, l *mapLoop, bas
 					isStderr = true
 				}
 			}
+			// a strings.Builder / bytes.Buffer that is a local of this function is a string under construction: what
+			// matters is where its String() / Bytes() go
+			localBuilderMsg := false
+			if al, isAlloc := w.(*ssa.Alloc); isAlloc && !definedInLoop {
+				tn := typeStr(al.Type())
+				if strings.HasSuffix(tn, "strings.Builder") || strings.HasSuffix(tn, "bytes.Buffer") {
+					c.msgIsErrorText = false
+					all, n := true, 0
+					for _, r := range *al.Referrers() {
+						rc, isCall := r.(*ssa.Call)
+						if !isCall {
+							continue
+						}
+						name := core.StaticCalleeName(&rc.Call)
+						if !strings.HasSuffix(name, ").String") && !strings.HasSuffix(name, ").Bytes") {
+							continue
+						}
+						n++
+						if refs := rc.Referrers(); refs != nil {
+							for _, u := range *refs {
+								if !c.onlyMessage(m, u, rc, 0) {
+									all = false
+								}
+							}
+						}
+					}
+					if n > 0 && all && !c.msgIsErrorText {
+						localBuilderMsg = true
+					}
+				}
+			}
 			switch {
-			case isStderr:
+			case isStderr, localBuilderMsg:
 				verdict = "message"
 			case definedInLoop:
 				verdict, why = "sorted", "the writer is created inside the iteration"
